@@ -210,6 +210,70 @@ class Phases(object):
         return self.base.choose(s, enabled)
 
 
+class Steer(object):
+    """Steer the real code towards a candidate lock cycle found by TLC on recorded lock programs
+    (spec/LockCases.tla).  gates = [[held role, wanted role], ...]: a thread about to acquire a lock of the wanted
+    role while it owns a lock of the held role is parked - although it could go on - while the other threads run
+    (and while virtual time advances to the next timer, for at most `patience` ticks), so that another thread can
+    take the wanted lock and come for the held one.  If that happens both are really blocked on each other and the
+    execution ends in a deadlock that the engine reports; if it does not, the parked thread is let go and nothing is
+    claimed.  Everything else is decided by the base strategy (the one of the execution the cycle came from)."""
+
+    def __init__(self, gates, patience=600, base=None, max_steps=3000):
+        self.gates = [tuple(g) for g in gates]
+        self.patience = patience
+        self.base = base or Sticky()
+        self.max_steps = max_steps
+        self.parked = {}        # tid -> (lock ordinal, time, step)
+        self.let_go = set()     # (tid, lock ordinal)
+        self.parks = 0
+
+    def _gate(self, s, r):
+        op = r.op
+        if not op or op == "aborted" or op[0] != "acquire" or not r.held:
+            return None
+        lock = op[1]
+        lid = getattr(lock, "_lid", None)
+        if lid is None or (r.tid, lid) in self.let_go or lock._owner is not None:
+            return None
+        want = s.lock_role(lock)
+        for (h, w) in self.gates:
+            if w == want and any(s.lock_role(l) == h for l in r.held):
+                return lid
+        return None
+
+    def held_back(self, s, r):
+        lid = self._gate(s, r)
+        if lid is None:
+            self.parked.pop(r.tid, None)
+            return False
+        ent = self.parked.get(r.tid)
+        if ent is None or ent[0] != lid:
+            ent = (lid, s.now, s.steps)
+            self.parked[r.tid] = ent
+            self.parks += 1
+        if s.now - ent[1] > self.patience or s.steps - ent[2] > self.max_steps:
+            self.let_go.add((r.tid, lid))
+            self.parked.pop(r.tid, None)
+            return False
+        return True
+
+    def patience_until(self, s):
+        return min([e[1] + self.patience for e in self.parked.values()] or [s.now])
+
+    def give_up(self, s):
+        for tid, ent in list(self.parked.items()):
+            self.let_go.add((tid, ent[0]))
+        self.parked.clear()
+
+    def choose(self, s, enabled):
+        return self.base.choose(s, enabled)
+
+    def on_new_thread(self, s, rec):
+        if hasattr(self.base, "on_new_thread"):
+            self.base.on_new_thread(s, rec)
+
+
 def make(spec):
     """Build a strategy from a JSON-able spec."""
     k = spec[0]
@@ -231,6 +295,9 @@ def make(spec):
         return Phases(spec[1], make(spec[2]) if len(spec) > 2 and spec[2] else None)
     if k == "preempt":
         return PreemptAt(spec[1], spec[2], spec[3], make(spec[4]) if len(spec) > 4 and spec[4] else None)
+    if k == "steer":
+        return Steer(spec[1], spec[2] if len(spec) > 2 and spec[2] else 600,
+                     make(spec[3]) if len(spec) > 3 and spec[3] else None)
     if k == "named":
         return Named(spec[1], make(spec[2]) if len(spec) > 2 and spec[2] else None)
     raise ValueError(spec)
